@@ -40,15 +40,17 @@ def main(tier):
             for fld, val in re.findall(r"(\w+) \|-> (TRUE|FALSE)", m.group(2)):
                 if val == "FALSE":
                     classes.setdefault(fld, []).append(rec)
-        what = {"Opens": "a crash image could not be re-opened", "AtCommittedVersion": "a crash image re-opened at a version the node had not committed",
+        what = {"Runs": "the node could not be created on an empty database or could not run its block history", "Opens": "a crash image could not be re-opened", "AtCommittedVersion": "a crash image re-opened at a version the node had not committed",
                 "AllComponentsAgree": "after a crash, state root / full state / state-machine height do not all reflect the re-opened version",
                 "HistoryIntact": "after a crash, a block, certificate or historical state of an earlier version is missing or different",
                 "CanContinue": "after a crash the node cannot produce and commit the next block"}
         for key, items in sorted(classes.items()):
             v.violation(key, "%s (%d image(s); first: %s)" % (what[key], len(items), json.dumps(items[0])[:500]), {"line": items[0]})
         imgs = [x for x in recs if x["kind"] == "image"]
-        if not imgs:
+        if not imgs and not v.violations and not v.known:
             raise vlib.Infra("no crash images taken: dead driver")
+        if not imgs:
+            imgs = [{"version": 0, "totalOps": 0, "phase": "none"}]
         versions = sorted({x["version"] for x in imgs})
         coverage = {"states": r.distinct, "transitions": r.generated, "exhaustive": True, "constants": {"heights": 4, "crash": "any prefix of the log records"},
                     "traces_validated_against_impl": runs, "trace_lines": len(recs), "trace_lines_accepted": consumed,
